@@ -50,6 +50,64 @@ def published_relations(env) -> list[tuple[str, Val, ast.stmt]]:
     return out
 
 
+def _h5(run: Run, w: World, mods) -> None:
+    """Laws published as python functions (about 50 vector modules have no Eq at all): the bodies of the calculation functions,
+    and of the law functions they call, are typed with the parameters carrying the dimensions of their guards."""
+    from ..dim import Interp, guard_dimension, EXPR, UNKNOWN
+    from ..dimfn import FnInterp, VEC
+    from ..calc import functions
+    run.rule("H5", "calculation / law function bodies are homogeneous for arguments of the guarded dimensions and yield the declared output dimension")
+    nfn = ndec = 0
+    for m in mods:
+        env = w.env(m.name)
+        for g in functions(w, m):
+            if not g.fn.name.startswith("calculate") or not g.output_decos or not g.output_decos[0].args:
+                continue
+            it = Interp(w, env)
+            od = guard_dimension(it.ev(g.output_decos[0].args[0]))
+            guards = g.guards()
+            args = {}
+            for a in g.fn.args.posonlyargs + g.fn.args.args + g.fn.args.kwonlyargs:
+                an = norm(a.annotation) if a.annotation else ""
+                if a.arg not in guards:
+                    args[a.arg] = UNKNOWN("unguarded parameter")
+                    continue
+                gd = guard_dimension(it.ev(guards[a.arg]))
+                if gd is None or isinstance(gd, tuple):
+                    args[a.arg] = UNKNOWN("guard not typed")
+                elif gd == "any":
+                    args[a.arg] = Val("any")
+                elif "Sequence" in an or "list" in an.lower() or "Iterable" in an:
+                    args[a.arg] = UNKNOWN("sequence parameter")
+                elif "Vector" in an:
+                    args[a.arg] = VEC(gd)
+                else:
+                    args[a.arg] = EXPR(gd)
+            fi = FnInterp(w, env, g.fn, args)
+            res = fi.run()
+            nfn += 1
+            seen = set()
+            for iss in fi.env.issues:
+                key = (iss.rule, iss.targets, iss.text)
+                if key in seen:
+                    continue
+                seen.add(key)
+                where = iss.targets[0] if iss.targets else g.fn.name
+                run.violate("H5", f"{m.name}:{where}:{iss.text}", m, iss.node,
+                            f"in `{where}` (reached from {g.fn.name} with arguments of the guarded dimensions): {iss.msg}  [{iss.text}]", **iss.facts)
+            if res.kind in ("expr", "vec") and od not in (None, "any") and not isinstance(od, tuple):
+                ndec += 1
+                run.ob("H5", f"{m.name}:{g.fn.name}")
+                if res.dim != od:
+                    run.violate("H5", f"{m.name}:{g.fn.name}:output", m, g.fn,
+                                f"{g.fn.name} computes a value of dimension {res.dim} from arguments of the guarded dimensions but declares an output of dimension {od}",
+                                computed=str(res.dim), declared=str(od))
+            else:
+                run.skip("H5", f"{m.rel}:{g.fn.lineno} {g.fn.name}", res.why or res.kind)
+    run.notes.update({"h5_functions": nfn, "h5_decided": ndec})
+    run.floor("H5", ndec, 400, "calculation functions typed")
+
+
 def check(run: Run) -> None:
     run.rule("H1", "two sides of every published relation have the same dimension")
     run.rule("H2", "operands of +/-/Min/Max/Piecewise/integration limits have the same dimension")
@@ -104,6 +162,7 @@ def check(run: Run) -> None:
                             run.ob("H3", None)
                         elif isinstance(n, ast.Call) and isinstance(n.func, ast.Name) and n.func.id in ("exp", "sin", "cos", "tan", "cot", "sinh", "cosh", "tanh", "coth", "asin", "acos", "atan"):
                             run.ob("H4", None)
+    _h5(run, w, mods)
     run.notes.update({"catalogue_modules": len(mods), "modules_with_relations": with_rel, "published_relations": total,
                       "relations_decided": decided})
     run.floor("H1", total, 300, "published relations")
